@@ -1,0 +1,6 @@
+//go:build !verif
+
+package wire
+
+// verifPoint is a no-op in regular builds (see verif_on.go).
+func verifPoint(string) {}
